@@ -152,6 +152,37 @@ class IntVar:
         return NotImplemented
 
 
+def _expr_vars(expr, found=None):
+    """Distinct IntVars occurring in an expression tree, in order of first occurrence."""
+    if found is None:
+        found = []
+    if isinstance(expr, IntVar):
+        if not any(expr is v for v in found):
+            found.append(expr)
+    elif isinstance(expr, tuple):
+        for part in expr[1:]:
+            _expr_vars(part, found)
+    return found
+
+
+def _eval_expr(expr, value_of):
+    """Value of an expression tree (add / sub / rsub / mul nodes over IntVars and ints) under value_of(var)."""
+    if isinstance(expr, IntVar):
+        return value_of(expr)
+    if isinstance(expr, int):
+        return expr
+    op = expr[0]
+    if op == "add":
+        return _eval_expr(expr[1], value_of) + _eval_expr(expr[2], value_of)
+    if op == "sub":
+        return _eval_expr(expr[1], value_of) - _eval_expr(expr[2], value_of)
+    if op == "rsub":
+        return expr[2] - _eval_expr(expr[1], value_of)
+    if op == "mul":
+        return _eval_expr(expr[1], value_of) * expr[2]
+    raise ValueError(f"Unknown expression node: {op}")
+
+
 class Model:
     def __init__(self):
         self._next_bool = 1
@@ -193,11 +224,13 @@ class Model:
         self._constraints.append(constraint)
 
     def _flatten_sum(self, expr):
+        """Flatten a pure sum into (variables, constant); (None, 0) if the tree has sub / mul / rsub nodes."""
         terms = []
         const = 0
+        plain = True
 
         def flatten(e):
-            nonlocal const
+            nonlocal const, plain
             if isinstance(e, IntVar):
                 terms.append(e)
             elif isinstance(e, int):
@@ -205,9 +238,41 @@ class Model:
             elif isinstance(e, tuple) and e[0] == "add":
                 flatten(e[1])
                 flatten(e[2])
+            else:
+                plain = False
 
         flatten(expr)
+        if not plain:
+            return None, 0
         return terms, const
+
+    def _satisfied(self, values: dict[str, int]) -> bool:
+        """Exact check of every constraint on a complete assignment (propagation alone is not complete)."""
+
+        def value_of(var):
+            return values[var.name]
+
+        for c in self._constraints:
+            if not isinstance(c, tuple):
+                continue
+            kind = c[0]
+            if kind == "all_different":
+                vals = [values[v.name] for v in c[1]]
+                if len(set(vals)) != len(vals):
+                    return False
+            elif kind == "eq_const" and values[c[1].name] != c[2]:
+                return False
+            elif kind == "ne_const" and values[c[1].name] == c[2]:
+                return False
+            elif kind == "eq_var" and values[c[1].name] != values[c[2].name]:
+                return False
+            elif kind == "ne_var" and values[c[1].name] == values[c[2].name]:
+                return False
+            elif kind == "ne_expr":
+                equal = _eval_expr(c[1], value_of) == _eval_expr(c[2], value_of)
+                if equal == c[3]:
+                    return False
+        return True
 
     def sum_eq(self, variables, target):
         return ("sum_eq", tuple(variables), target)
@@ -297,12 +362,15 @@ class Model:
         def backtrack(domains: dict[str, set[int]]) -> bool:
             iterations[0] += 1
 
-            # Check if all assigned
-            unassigned = [n for n in domains if len(domains[n]) > 1 and not n.startswith("_")]
+            # Check if all assigned (unnamed variables too: constraints on them must be satisfiable)
+            unassigned = [n for n in domains if len(domains[n]) > 1]
             if not unassigned:
-                # Found solution
-                sol = {n: next(iter(d)) for n, d in domains.items() if not n.startswith("_")}
-                solutions.append(sol)
+                values = {n: next(iter(d)) for n, d in domains.items()}
+                if not self._satisfied(values):
+                    return False
+                sol = {n: v for n, v in values.items() if not n.startswith("_")}
+                if sol not in solutions:
+                    solutions.append(sol)
                 return len(solutions) >= solution_limit
 
             # MRV: pick variable with smallest domain
@@ -406,6 +474,28 @@ class Model:
         """Propagate (left_expr != right_expr) or (left_expr == right_expr)."""
         left_terms, left_const = self._flatten_sum(left)
         right_terms, right_const = self._flatten_sum(right)
+        if left_terms is None or right_terms is None or len(left_terms) != 1 or len(right_terms) != 1:
+            # General shape: forward checking once at most one variable of the constraint is still open
+            variables = _expr_vars(right, _expr_vars(left))
+            open_vars = [v for v in variables if len(domains[v.name]) > 1]
+            if len(open_vars) > 1:
+                return True
+            fixed = {v.name: next(iter(domains[v.name])) for v in variables if len(domains[v.name]) == 1}
+            target = open_vars[0] if open_vars else None
+            candidates = domains[target.name] if target is not None else {None}
+            keep = set()
+            for val in candidates:
+
+                def value_of(var, val=val):
+                    return val if var is target else fixed[var.name]
+
+                if (_eval_expr(left, value_of) == _eval_expr(right, value_of)) != is_ne:
+                    keep.add(val)
+            if not keep:
+                return False
+            if target is not None:
+                domains[target.name] = keep
+            return True
 
         if len(left_terms) == 1 and len(right_terms) == 1:
             var1, var2 = left_terms[0], right_terms[0]
